@@ -130,7 +130,7 @@ pub struct PanicInfo {
 
 impl PanicInfo {
     pub fn in_repo(&self) -> bool {
-        self.file.starts_with("/repo/") || self.file.starts_with("src/")
+        self.file.contains("/repo/src/") || self.file.starts_with("src/")
     }
     pub fn is_overflow(&self) -> bool {
         self.msg.contains("attempt to") && self.msg.contains("overflow")
